@@ -171,6 +171,7 @@ def run(ctx):
         cfg = r['cfg']
         if 'harness_error' in r:
             tie_broken = 'harness failed: ' + r['harness_error'][-300:]
+            ctx.log(tie_broken)
             continue
         obs = r['obs']
         if 'not_covered' in obs:
@@ -217,10 +218,10 @@ def run(ctx):
             if cfg.get('suite') is not None and obs['tl_suite'] != cfg['suite']:
                 problems.append(('wrong-suite', 'asked for %#x got %#x' % (cfg['suite'], obs['tl_suite'])))
         for k, what in problems:
-            found = True
             tag = 'null-cipher' if 'null' in (cfg.get('tl_cipherNames') or []) else 'v%s' % obs.get('tl_version')
-            ctx.violation('%s:%s:%s' % (k, cfg['role'], tag), what,
-                          {'cfg': cfg, 'observed': obs, 'how': './check C07 --replay <this file>'})
+            if ctx.violation('%s:%s:%s' % (k, cfg['role'], tag), what,
+                             {'cfg': cfg, 'observed': obs, 'how': './check C07 --replay <this file>'}):
+                found = True
         env, ccf, scf = r['lits']
         strict = True
         alpn = obs.get('tl_alpn')
